@@ -440,7 +440,7 @@ def C11_legacy_gets_reply_full : Prop :=
     (∃ it ∈ p.items, ∃ c ∈ it.cands, suppresses (unionKnown (h.lis.deferredOf addr ++ [p])) c = false) →
     ∃ id nq a b, Out.ucast addr port id nq a b ∈ r.outs
 
-/-- **What holds (finding C11-r2a).**  … provided the datagram is not a byte-identical repeat (< 1 s) of the datagram the listener saw
+/-- **What holds (finding D35).**  … provided the datagram is not a byte-identical repeat (< 1 s) of the datagram the listener saw
 last (`Listener.repeats`: the duplicate guard compares the bytes only, not the source).  The block is any accepted block
 (`h.step … = .ok r`: the loop facts), from any host state; the reply carries the id of the first packet of the query (the deferred
 ones of this address first) and the candidate among its answers. -/
@@ -471,7 +471,7 @@ theorem C11_legacy_gets_reply_partial (h : Host) (t : Int) (addr port dataId siz
   have hne : qa.ucast.isEmpty = false := Dict.isEmpty_false_of_mem hu
   simp [immediateOuts, hne, hus, GenFacts.ans_echo_questions]
 
-/-- the witness of C11-r2a: resolver 1 (address id 1, port 40000) asked 10 ms ago; resolver 2 (address id 2, port 40001) sends the same
+/-- the witness of D35: resolver 1 (address id 1, port 40000) asked 10 ms ago; resolver 2 (address id 2, port 40001) sends the same
 bytes (datagram id 7) — a single PTR question with a candidate answer — and the host sends nothing -/
 def d24Pkt : Pkt := { dataId := 7, now := 1010, id := 0, flags := 0, numAuth := 0, nq := 1, q0type := 12,
                       items := [{ qu := false, cands := [{ id := 5, ttl := 4500, adds := [] }] }], known := [] }
@@ -559,7 +559,7 @@ theorem C11_qu_gets_reply (h : Host) (t : Int) (addr port dataId size : Nat) (p 
 
 example : ({} : Host).lis.LastCoherent 7 true := by decide
 
-/-! ### finding C11-r2b: deferral is keyed by the address alone -/
+/-! ### finding D36: deferral is keyed by the address alone -/
 
 /-- every packet deferred for `addr` was received from source port `port` (`srcPort` names, for each datagram, the port it came from) -/
 def Listener.DeferredFromPort (l : Listener) (srcPort : Nat → Nat) (addr port : Nat) : Prop :=
@@ -576,7 +576,7 @@ def C11_reply_own_query_full : Prop :=
     ∀ a q id nq x y, Out.ucast a q id nq x y ∈ r.outs →
       ∃ pk ∈ h.lis.deferredOf addr ++ [p], pk.id = id ∧ srcPort pk.dataId = port
 
-/-- **What holds (finding C11-r2b).**  … provided every packet held for the address came from the same source port (the listener keys
+/-- **What holds (finding D36).**  … provided every packet held for the address came from the same source port (the listener keys
 `_deferred` and `_timers` by the address string alone): then the reply echoes the id of the *first* packet of this querier's train. -/
 theorem C11_reply_own_query_partial (srcPort : Nat → Nat) (h : Host) (t : Int) (addr port dataId size : Nat) (hasQu : Bool) (p : Pkt)
     (seen : SeenMap) (draws : List Int) (r : StepOut)
@@ -627,7 +627,7 @@ theorem C11_reply_own_query_partial (srcPort : Nat → Nat) (h : Host) (t : Int)
         · cases hm
         · simp [Out.ofMcast] at hm
 
-/-- the witness of C11-r2b: a truncated packet from port 40000 (datagram 1, id 7) is being held for address 1; the plain query from port
+/-- the witness of D36: a truncated packet from port 40000 (datagram 1, id 7) is being held for address 1; the plain query from port
 40001 (datagram 2, id 9) is answered — to port 40001 — with id 7 -/
 def d25Held : Pkt := { dataId := 1, now := 1000, id := 7, flags := 512, numAuth := 0, nq := 1, q0type := 12,
                        items := [{ qu := false, cands := [{ id := 5, ttl := 4500, adds := [] }] }], known := [] }
